@@ -137,6 +137,9 @@ def transform_value(tagname, attributes, contents, context, bind):
 
     if tagname == "input":
         subtype = attributes.get("type", "")
+        if isinstance(subtype, str):
+            # HTML attribute values of the type keyword are case-insensitive
+            subtype = subtype.lower()
         if subtype in ("radio", "checkbox"):
             if subtype == "checkbox":
                 current = attributes.get("value")
@@ -291,7 +294,10 @@ def _generate_raw_domid(tagname, attributes, bind):
 
     suffix = None
     # add the value="" to CHECKBOX and RADIO to produce a unique ID
-    if tagname == "input" and attributes.get("type") in ("checkbox", "radio"):
+    subtype = attributes.get("type")
+    if isinstance(subtype, str):
+        subtype = subtype.lower()
+    if tagname == "input" and subtype in ("checkbox", "radio"):
         suffix = _sanitize_domid_suffix(attributes.get("value", ""))
     # when the value attribute is supplied for a LABEL, add it to domid.
     # this is used to produce LABELs with matching for="..." attribute values
